@@ -8,7 +8,9 @@ public API, and reads back what is observable:
   the property read at every class and instance;
 * the render method (it has no getter): the framing of an ACTUAL render without override -
   number of graphics commands == rendered height -> "lines", == 1 -> "whole" - at every
-  instance and, for every class, at a fresh instance of that class;
+  instance and, for every class, at a fresh instance of that class; plus the pixel size of the
+  image data each command transmits (kitty ``s`` x ``v``; iterm2: size of the decoded payload),
+  reported as "WxH" ("mixed:..." if the commands of one render disagree);
 * forced support also through its effect: can the class be instantiated while the
   (scripted) terminal supports no graphics protocol.
 
@@ -19,6 +21,7 @@ edge dumps.
 
 from __future__ import annotations
 
+import base64
 import contextlib
 import io
 import random
@@ -154,7 +157,9 @@ class ForceFailed(Exception):
 class World:
     """One tree of real classes + instances.  Node numbers are the spec's (1-based)."""
 
-    def __init__(self, fam: str, par: list[int], nc: int, wseed: int):
+    CELL = (2, 4)
+
+    def __init__(self, fam: str, par: list[int], nc: int, wseed: int, geo: dict | None = None):
         from PIL import Image
         from term_image.image import ITerm2Image, KittyImage
 
@@ -166,12 +171,19 @@ class World:
         self.base = {"kitty": KittyImage, "iterm2": ITerm2Image}[fam]
         _snapshot(self.base)
         restore_real_classes(self.base)
-        stubs.set_term(size=(80, 30), cell=(2, 4))
+        stubs.set_term(size=(80, 30), cell=self.CELL)
         stubs.set_identity(IDENT[fam])
-        self.rh = self.rng.choice([2, 2, 3])
-        self.rw = self.rng.choice([1, 2, 3])
+        if geo is None:  # source smaller / larger than the rendered pixel size, both often
+            rw, rh = self.rng.choice([1, 2, 3]), self.rng.choice([2, 2, 3])
+            ow, oh = self.rng.choice([(1, 2), (3, 5), (4, 4), (10, 7), (2, 8), (16, 9), (7, 13), (40, 40),
+                                      (rw * 2, rh * 4), (self.rng.randint(1, 12), self.rng.randint(1, 12))])
+            geo = {"cw": self.CELL[0], "ch": self.CELL[1], "rw": rw, "rh": rh, "ow": ow, "oh": oh}
+        if (geo["cw"], geo["ch"]) != self.CELL:
+            raise MachineryError(f"c20: geometry {geo} does not use the scripted cell size {self.CELL}")
+        self.geo = geo
+        self.rw, self.rh = geo["rw"], geo["rh"]
         mode = self.rng.choice(["RGB", "RGB", "RGBA", "L"])
-        self.img = Image.new(mode, (self.rng.choice([1, 3, 4]), self.rng.choice([2, 5])))
+        self.img = Image.new(mode, (geo["ow"], geo["oh"]))
         self.nodes: list = [None] * (self.n + 1)
         self.nodes[1] = self.base
         for i in range(2, nc + 1):
@@ -213,7 +225,7 @@ class World:
             if k == "render":
                 target = node if not self.is_class(n) else self._instance(n)
                 ov = None if a["t"] == "unset" else a["s"]
-                return "ok", self._frame(target, ov)
+                return ("ok", *self._frame(target, ov))
             if st == "rm":
                 if k == "unset":
                     if self.rng.random() < 0.5:
@@ -226,9 +238,11 @@ class World:
                 delattr(node, PROP[st])
             else:
                 setattr(node, PROP[st], to_python(a, rng))
+        except MachineryError:
+            raise
         except Exception as e:  # the outcome IS the observation
-            return type(e).__name__, ""
-        return "ok", ""
+            return type(e).__name__, "", ""
+        return "ok", "", ""
 
     def force(self, ov: dict) -> None:
         """Re-create a model state from scratch through plain *set* calls (resync)."""
@@ -237,12 +251,13 @@ class World:
             for i, r in enumerate(vals, 1):
                 if r["t"] == "unset":
                     continue
-                res, _ = self.do({"k": "set", "set": st, "n": i, "a": r}, canonical=True)
+                res = self.do({"k": "set", "set": st, "n": i, "a": r}, canonical=True)[0]
                 if res != "ok":
                     raise ForceFailed(f"cannot force {st}[{i}] = {r}: {res}")
 
     # ------------------------------------------------------------ observation
-    def _frame(self, inst, override: str | None) -> str:
+    def _frame(self, inst, override: str | None) -> tuple[str, str]:
+        """Render for real; returns (framing, pixel size of the transmitted data)."""
         if override is None:
             out = str(inst)
         else:
@@ -255,22 +270,36 @@ class World:
                 with contextlib.redirect_stdout(buf):
                     inst.draw(method=self.rng.choice([override, override.upper()]))
                 out = buf.getvalue()
-        stream = lexer.lex(out)
+        stream = lexer.lex(out, keep_payloads=self.fam == "iterm2")
         unk = lexer.unknowns(stream)
         if unk:
             raise MachineryError(f"c20: lexer does not know {unk[:3]}")
+        sizes = []
         if self.fam == "kitty":
-            cnt = sum(1 for g in stream.gfx[1:] if g["proto"] == "kitty" and g["a"] == "T")
+            for g in stream.gfx[1:]:
+                if g["proto"] == "kitty" and g["a"] == "T":
+                    sizes.append(f"{g['s']}x{g['v']}")
         else:
-            cnt = sum(1 for g in stream.gfx[1:] if g["proto"] == "iterm2" and g["inline"] == 1)
+            from PIL import Image
+
+            for g, payload in zip(stream.gfx[1:], stream.payloads[1:]):
+                if g["proto"] == "iterm2" and g["inline"] == 1:
+                    try:
+                        with Image.open(io.BytesIO(base64.b64decode(payload))) as im:
+                            sizes.append(f"{im.width}x{im.height}")
+                    except Exception as e:
+                        sizes.append("undecodable:" + type(e).__name__)
+        cnt = len(sizes)
+        px = sizes[0] if len(set(sizes)) == 1 else "mixed:" + ",".join(sizes)
         if cnt == self.rh:
-            return "lines"
+            return "lines", px
         if cnt == 1:
-            return "whole"
-        return f"bad{cnt}of{self.rh}"
+            return "whole", px
+        return f"bad{cnt}of{self.rh}", px
 
     def observe(self, render: bool = True, gate: bool = True) -> dict:
         eff: dict[str, list] = {}
+        px = ["skip"] * self.n
         for st in SETTINGS:
             if st not in FAM_SETTINGS[self.fam]:
                 eff[st] = [NA] * self.n
@@ -284,11 +313,13 @@ class World:
                         continue
                     try:
                         inst = node if not self.is_class(i) else self._instance(i)
-                        vals.append(rec("str", 0, self._frame(inst, None)))
+                        frame, px[i - 1] = self._frame(inst, None)
+                        vals.append(rec("str", 0, frame))
                     except MachineryError:
                         raise
                     except Exception as e:
                         vals.append(rec("error", 0, type(e).__name__))
+                        px[i - 1] = "error"
                 else:
                     try:
                         vals.append(enc(getattr(node, PROP[st])))
@@ -314,7 +345,7 @@ class World:
                         gates[i - 1] = "error:" + type(e).__name__
             finally:
                 stubs.set_identity(IDENT[self.fam])
-        return {"eff": eff, "gate": gates}
+        return {"eff": eff, "gate": gates, "px": px}
 
 
 def clean_init(n: int) -> dict:
